@@ -79,6 +79,33 @@ def run(tier):
     for a in [(2,), (3,), (2, 3), (3, 2, 2)]:
         with suite.guard('snakes %s' % (a,), [fq + 'cups', fq + 'caps']):
             _snake_block(suite, a, fq)
+    # "equalities of tensors": a tensor is a matrix FROM its domain TO its codomain; the same entries split differently
+    # between dom and cod are different tensors
+    with suite.guard('equality of tensors', [fq + '__eq__']):
+        cup, cap, idn = Tensor.cups(Dim(2), Dim(2)), Tensor.caps(Dim(2), Dim(2)), Tensor.id(Dim(2))
+        suite.fact('eq.types_matter[cup, cap, id]', not (cup == cap) and not (cup == idn) and not (cap == idn) and cup == Tensor.cups(Dim(2), Dim(2)),
+                   functions=[fq + '__eq__'], what='cup, cap and identity on Dim(2) have the same entries and are three different tensors')
+        v_ = Tensor(Dim(1), Dim(2, 3), list(range(6)))
+        suite.fact('eq.types_matter[state vs effect]', not (v_ == Tensor(Dim(2, 3), Dim(1), list(range(6))))
+                   and not (v_ == Tensor(Dim(2), Dim(3), list(range(6)))) and not (v_ == Tensor(Dim(1), Dim(3, 2), list(range(6))))
+                   and v_ == Tensor(Dim(1), Dim(2, 3), list(range(6))), functions=[fq + '__eq__'])
+        suite.fact('eq.congruence', (idn @ idn == cup @ cup) == (idn == cup), functions=[fq + '__eq__', fq + 'tensor'],
+                   what='== is compatible with tensor')
+    # naturality of swaps through diagram evaluation (the swap a tensor functor produces), wires of several / no dimensions
+    from discopy import tensor as _t, rigid as _r
+    with suite.guard('swap naturality through evaluation', ['tensor.Functor.__call__']):
+        x_, y_ = _r.Ty('x'), _r.Ty('y')
+        bf, bg = _r.Box('f', x_, x_), _r.Box('g', y_, y_)
+        for dx, dy in (((2,), (3,)), ((2, 3), (2,)), ((2,), (2, 3)), ((), (2,)), ((2,), ()), ((2, 2), (3, 2))):
+            A, B = sym_tensor(dx, dx, 'a'), sym_tensor(dy, dy, 'b')
+            F = _t.Functor({x_: Dim(*dx), y_: Dim(*dy)}, {bf: A.array, bg: B.array})
+            lhs = F(bf @ bg >> _r.Diagram.swap(x_, y_))
+            rhs = F(_r.Diagram.swap(x_, y_) >> bg @ bf)
+            suite.identity('swap.natural.evaluated%s%s' % (dx, dy), entries(mat(lhs)), entries(mat(rhs)), extra=free(A, B),
+                           functions=['tensor.Functor.__call__', fq + 'swap'], what='(f @ g) ; swap == swap ; (g @ f) after evaluation')
+            suite.identity('swap.evaluated%s%s' % (dx, dy), entries(mat(lhs)),
+                           entries(mat(A @ B >> Tensor.swap(Dim(*dx), Dim(*dy)))), extra=free(A, B),
+                           functions=['tensor.Functor.__call__', fq + 'swap'], what='the evaluated swap is Tensor.swap of the images')
     return suite.result()
 
 
